@@ -107,6 +107,12 @@ func shapeDoc(s map[string]any, r *rand.Rand) *sbom.Document {
 				{Type: ct, From: "c", To: []string{"d"}}, {Type: ct, From: "d", To: []string{"c"}}}
 		case "deps-cycle":
 			nl.Edges = []*sbom.Edge{{Type: ct, From: "a", To: []string{"b", "c"}}, {Type: sbom.Edge_dependsOn, From: "b", To: []string{"c"}}, {Type: sbom.Edge_dependsOn, From: "c", To: []string{"b", "c"}}}
+		case "island-cycle": // a containment cycle reachable neither from the root nor from a parentless node
+			nl.Nodes = append(nl.Nodes, &sbom.Node{Id: "d", Name: "nd"})
+			nl.Edges = []*sbom.Edge{{Type: ct, From: "a", To: []string{"b"}}, {Type: ct, From: "c", To: []string{"d"}}, {Type: ct, From: "d", To: []string{"c"}}}
+		case "dup-deps": // a dependency list that repeats a target before another one
+			nl.Edges = []*sbom.Edge{{Type: ct, From: "a", To: []string{"b", "c"}}, {Type: sbom.Edge_dependsOn, From: "a", To: []string{"b", "b", "c"}},
+				{Type: sbom.Edge_dependsOn, From: "b", To: []string{"c", "c", "a", "c"}}}
 		case "dag": // a node contained twice
 			nl.Edges = []*sbom.Edge{{Type: ct, From: "a", To: []string{"b", "c"}}, {Type: ct, From: "b", To: []string{"c"}}}
 		case "dangling":
@@ -251,7 +257,16 @@ func serRun(args []string) error {
 	one := func(k int, pass string) {
 		s := list[k]
 		doc := shapeDoc(s, rand.New(rand.NewSource(int64(k))))
-		for _, f := range serFormats {
+		// ONE document value goes through all serializers; the second pass uses the opposite format order, so
+		// each format sees the document after different others have had it
+		order := serFormats
+		if pass == "SER2" {
+			order = make([]string, len(serFormats))
+			for i, f := range serFormats {
+				order[len(serFormats)-1-i] = f
+			}
+		}
+		for _, f := range order {
 			sid++
 			ev := map[string]any{"op": pass, "sid": sid, "case": k, "shape": s, "fmt": f, "o": outcome("skip", ""), "n": ""}
 			if sid <= skipCases {
